@@ -134,6 +134,57 @@ class CFG:
                 cut.add((b, i))
         return target_block not in self.reachable(start, avoid_edges=cut), cut
 
+    def feasible_reach(self, target_block, cut_pred, track, start=None):
+        """Is target_block reachable from start without using an edge for which cut_pred holds,
+        along a path whose literals on the tracked atoms are not contradictory?  `track` is a
+        predicate on atoms.  Facts are killed by stores to a variable the atom mentions.
+        Returns a witness [(block, idx)] or None."""
+        from . import query
+        start = self.entry if start is None else start
+        kills = {}
+        for b in self.blocks.values():
+            names = set()
+            for n in b.elems:
+                if n.k == "BinaryOperator" and n.j.get("op") == "=":
+                    names.add(render(n.children[0]))
+                elif n.k in ("CompoundAssignOperator",) or (n.k == "UnaryOperator" and n.j.get("op") in ("++", "--")):
+                    names.add(render(n.children[0]))
+            kills[b.id] = names
+        init = (start, frozenset())
+        prev = {init: None}
+        queue = [init]
+        while queue:
+            cur = queue.pop(0)
+            b, facts = cur
+            if b == target_block:
+                path = []
+                while prev[cur] is not None:
+                    path.append(prev[cur][1])
+                    cur = prev[cur][0]
+                path.reverse()
+                return path
+            fd = dict(facts)
+            for nm in kills[b]:
+                for a in list(fd):
+                    if nm and nm in a:
+                        del fd[a]
+            for i, s in enumerate(self.blocks[b].succs):
+                if s is None:
+                    continue
+                lit = self.edge_lit(b, i)
+                if cut_pred(lit, b, i):
+                    continue
+                nf = dict(fd)
+                if lit is not None and track(lit.atom):
+                    if lit.atom in nf and nf[lit.atom] != lit.pol:
+                        continue            # contradictory path
+                    nf[lit.atom] = lit.pol
+                nxt = (s, frozenset(nf.items()))
+                if nxt not in prev:
+                    prev[nxt] = (cur, (b, i))
+                    queue.append(nxt)
+        return None
+
     def some_path_avoiding(self, target_block, edge_pred, start=None):
         ok, cut = self.all_paths_cut(target_block, edge_pred, start)
         return not ok
